@@ -289,6 +289,12 @@ SEEDS9 = {
     "C05-12": ("C05", ["C05"], "inmemory.expectAndWrite returns nil early when the stored bytes already equal the bytes to write (before the conflict check)", "two byte-identical requests overlapping on one log with a deterministic (non-timestamped) witness signature"),
     "C18-11": ("C18", ["C18", "C14"], "sumdb feeder: SaveTiles fills a per-FeedLog cache keyed by (level, index); ReadTiles serves an entry when its stored width 'covers' the request, and the full-tile marker -1 compares below every partial width", "one long-lived FeedLog: a proof that reads a tile while partial, then growth so that the same tile is full and needed again (100->200, 200->300)"),
     "C18-12": ("C18", ["C18", "C14", "C19"], "client HTTPFetcher remembers 404/410 tile paths in a 'gone' set and never asks for them again", "one 404 for a tile the proof needs (checkpoint visible before its tile), then an honest server"),
+    "C17-13": ("C17", ["C17"], "(as C17-2/-5/-11, written independently) Main decodes the embedded configuration with KnownFields(true); shipped entries carry PublicKeyType", "running Main itself on the shipped configuration"),
+    "C17-14": ("C17", ["C17"], "rekor feeder refuses base URLs whose path does not end in '/'; the shipped Rekor URLs have an empty path", "starting the real Rekor feeder from the exact shipped URL strings"),
+    "C20-13": ("C20", ["C20"], "(as C20-8, written independently) the split-view alarm (log line + counter) is de-duplicated by the last conflicting root per log", "the same conflicting checkpoint refused twice for one log with no other conflicting root in between"),
+    "C20-14": ("C20", ["C20", "C03"], "Update returns ctx.Err() up front - above the known-log lookup and the attempt counter", "an update naming a known log whose context is already cancelled or past its deadline"),
+    "C16-13": ("C16", ["C16", "C04"], "(as C16-2, written independently) witness read cache refreshed by the store() helper of two of the three write paths; the size-0 resubmission path keeps its inline Set", "a log held at size 0, a second accepted size-0 update with different cosigned bytes, then a GET"),
+    "C16-14": ("C16", ["C16"], "bundled client reads response bodies through io.LimitReader(64 KiB) without noticing the cut", "a stored cosigned checkpoint larger than 65536 bytes"),
 }
 SEEDS2.update(SEEDS9)
 ROUND9 = {'C01', 'C02', 'C03', 'C04', 'C05', 'C07', 'C08', 'C09', 'C10', 'C13', 'C15', 'C18'}
